@@ -52,6 +52,7 @@ def check(ctx) -> None:
     r17(ctx)
     r18(ctx)
     r19(ctx)
+    r110(ctx)
 
 
 # ----------------------------------------------------------------------
@@ -693,3 +694,100 @@ def r19(ctx) -> None:
                 'dropped (e.g. `if done.is_set(): break` before the write), '
                 'and no later fork re-emits it: the client never sees that '
                 'EXISTS/EXPUNGE and its numbering diverges for good')
+
+
+def r110(ctx, rid: str = 'R1.10') -> None:
+    R = ctx.rule(rid, 'per-command marks do not outlive a command that '
+                 'failed', 2)
+    STATE_ = 'pymap/imap/state.py'
+    cs = ctx.proj.cls(STATE_, 'ConnectionState')
+    sm = ctx.proj.cls('pymap/selected.py', 'SelectedMailbox')
+    # which fields do the handlers mark before calling the session?
+    marks = set()
+    for fs in cs.methods.values():
+        for f in fs:
+            if not f.name.startswith('do_'):
+                continue
+            for s_ in walk_local(f.node):
+                if isinstance(s_, ast.Assign):
+                    for t in s_.targets:
+                        if isinstance(t, ast.Attribute) and \
+                                txt(t.value) == 'self.selected':
+                            marks.add(t.attr)
+                if isinstance(s_, ast.Call) and isinstance(
+                        s_.func, ast.Attribute) and \
+                        txt(s_.func.value) == 'self.selected' and \
+                        s_.func.attr == 'silence':
+                    marks.add('silence')
+    if not {'hide_expunged', 'silence'} <= marks:
+        raise AnchorError(f'command handlers mark {sorted(marks)}: '
+                          f'hide_expunged / silence() not found')
+    # fork() creates the next selection WITHOUT those marks ...
+    fork = sm.own_method('fork')
+    init = sm.own_method('__init__')
+    ctor = next((c for c in calls_in(fork.node)
+                 if call_name(c) in ('cls', 'SelectedMailbox')), None)
+    carried = {k.arg for k in ctor.keywords} if ctor is not None else set()
+    R.check(ctor is not None and not (carried & {'_hide_expunged',
+                                                 '_silenced_flags',
+                                                 '_silenced_sflags'}),
+            fork, fork.node, 'fork() starts the next command with clean '
+            'marks', 'fork() carries the per-command marks over')
+    # ... and do_command resets them when the handler raises instead
+    dc = cs.own_method('do_command')
+    call = next((c for c in calls_in(dc.node) if call_name(c) == 'func'),
+                None)
+    if call is None:
+        raise AnchorError('do_command: handler call `func(cmd)` not found')
+    resets: set[str] = set()
+    broad = False
+    for t in enclosing(dc.node, call, (ast.Try,)):
+        if not any(call is x for b in t.body for x in ast.walk(b)):
+            continue
+        for h in t.handlers:
+            names = ['BaseException'] if h.type is None else (
+                [txt(e).split('.')[-1] for e in h.type.elts]
+                if isinstance(h.type, ast.Tuple)
+                else [txt(h.type).split('.')[-1]])
+            if not ({'BaseException', 'Exception'} & set(names)):
+                continue
+            if not any(isinstance(x, ast.Raise) for x in h.body):
+                continue
+            broad = True
+            for x in [y for b in h.body for y in ast.walk(b)]:
+                if isinstance(x, ast.Assign):
+                    for tg in x.targets:
+                        if isinstance(tg, ast.Attribute) and \
+                                'selected' in txt(tg.value) and \
+                                const_value(x.value) == (True, False):
+                            resets.add(tg.attr.lstrip('_'))
+                if isinstance(x, ast.Call) and isinstance(
+                        x.func, ast.Attribute) and \
+                        'selected' in txt(x.func.value):
+                    m = sm.own_method(x.func.attr)
+                    if m is None:
+                        continue
+                    for y in walk_local(m.node):
+                        if isinstance(y, ast.Assign):
+                            for tg in y.targets:
+                                if isinstance(tg, ast.Attribute) and \
+                                        is_name(tg.value, 'self') and \
+                                        const_value(y.value) == (True,
+                                                                 False):
+                                    resets.add(tg.attr.lstrip('_'))
+                        if isinstance(y, ast.Call) and isinstance(
+                                y.func, ast.Attribute) and \
+                                y.func.attr == 'clear' and isinstance(
+                                    y.func.value, ast.Attribute):
+                            resets.add(y.func.value.attr.lstrip('_'))
+    need = {'hide_expunged', 'silenced_flags', 'silenced_sflags'}
+    R.check(broad and need <= resets, dc, call,
+            'do_command resets hide_expunged and the silenced flags when '
+            'the handler raises',
+            f'the handler call is not under an `except (Base)Exception: '
+            f'<reset>; raise` that resets {sorted(need - resets)}: the '
+            f'marks are set BEFORE the session call and only fork() (after '
+            f'a successful handler) drops them, so a refused command '
+            f'(STORE in an EXAMINE session -> NO [READ-ONLY]) leaves them '
+            f'on the selection and the next NOOP withholds * n EXPUNGE / '
+            f'swallows a flag change')
